@@ -28,6 +28,7 @@ type Store struct {
 	subscriber                 chan string
 	errChan                    chan error
 	retainedCheckpointsUpdated chan []uint64
+	retainedCheckpointsSent    chan struct{} // Closed once the latest retained checkpoints notification was sent
 	state                      storeState
 	stateMu                    sync.Mutex
 	sourceSplitters            []connectors.SourceSplitter
@@ -203,35 +204,48 @@ func (s *Store) finishSnapshotAsync(snap *jobSnapshot) (uri string, err error) {
 	// Accessing state to update completedSnapshots
 	s.stateMu.Lock()
 
+	// Checkpoints are published concurrently, so this checkpoint may finish
+	// after a newer one did. In that case it is obsolete on arrival: it must not
+	// replace the newer checkpoint, remove its file or be announced as retained.
+	superseded := false
+	for _, completedSnap := range s.state.completedSnapshots {
+		if completedSnap.id > snap.id {
+			superseded = true
+		}
+	}
+
 	// When a new checkpoint is finished, all previous checkpoints are obsolete.
-	if len(s.state.completedSnapshots) > 0 {
+	if !superseded && len(s.state.completedSnapshots) > 0 {
 		obsoleteIDs := make([]uint64, 0, len(s.state.completedSnapshots))
 		for _, oldSnap := range s.state.completedSnapshots {
 			obsoleteIDs = append(obsoleteIDs, oldSnap.id)
 		}
 
 		// Delete the obsolete checkpoints files
-		go func() {
-			paths := make([]string, 0, len(obsoleteIDs))
-			for _, id := range obsoleteIDs {
-				paths = append(paths, filepath.Join(s.checkpointsPath, "job-"+pathSegment(id)+".snapshot"))
-			}
-			if err := s.fileStore.Remove(paths...); err != nil {
-				s.log.Error("failed to remove obsolete checkpoint files", "paths", paths, "err", err)
-			}
-		}()
+		go s.removeCheckpointFiles(obsoleteIDs)
 
-		// Notify subscribers of new list of checkpoints to retain (just the completed one)
+		// Notify subscribers of new list of checkpoints to retain (just the
+		// completed one). Each notification waits for the previous one to be sent
+		// so that subscribers see them in the order the checkpoints completed.
 		if s.retainedCheckpointsUpdated != nil {
+			previousSent := s.retainedCheckpointsSent
+			sent := make(chan struct{})
+			s.retainedCheckpointsSent = sent
 			go func() {
 				verifhook.At("snapshots.notify", snap.id)
+				if previousSent != nil {
+					<-previousSent
+				}
 				s.retainedCheckpointsUpdated <- []uint64{snap.id}
+				close(sent)
 			}()
 		}
 	}
 
 	// Reset the completed snapshots to remove obsolete checkpoints
-	s.state.completedSnapshots = []*jobSnapshot{snap}
+	if !superseded {
+		s.state.completedSnapshots = []*jobSnapshot{snap}
+	}
 	s.stateMu.Unlock()
 
 	s.log.Info("store wrote checkpoint", "uri", uri)
@@ -243,7 +257,22 @@ func (s *Store) finishSnapshotAsync(snap *jobSnapshot) (uri string, err error) {
 		}
 		s.log.Info("store wrote savepoint", "uri", spURI)
 	}
+
+	// Nothing refers to the file of a superseded checkpoint.
+	if superseded {
+		go s.removeCheckpointFiles([]uint64{snap.id})
+	}
 	return uri, nil
+}
+
+func (s *Store) removeCheckpointFiles(ids []uint64) {
+	paths := make([]string, 0, len(ids))
+	for _, id := range ids {
+		paths = append(paths, filepath.Join(s.checkpointsPath, "job-"+pathSegment(id)+".snapshot"))
+	}
+	if err := s.fileStore.Remove(paths...); err != nil {
+		s.log.Error("failed to remove obsolete checkpoint files", "paths", paths, "err", err)
+	}
 }
 
 // CurrentCheckpoint returns the latest checkpoint from memory.
